@@ -1,5 +1,5 @@
 From Coq Require Import ZArith List Bool.
-From PV Require Import Base.U64 C13.C13_Model C13.C13_Msg C13.C13_Proofs C13.C13_MsgProofs C13.C13_Statements C13.C13_ChunkSafe.
+From PV Require Import Base.U64 C13.C13_Model C13.C13_Msg C13.C13_Proofs C13.C13_MsgProofs C13.C13_Statements C13.C13_ChunkSafe C13.C13_ChunkDecode C13.C13_Roundtrip.
 Import ListNotations.
 Local Open Scope Z_scope.
 
@@ -95,3 +95,32 @@ Theorem chunked_read_within_count : forall fuel s count r o s',
   0 <= c_remain s' /\ (r < 0 \/ (zlen o = r /\ 0 <= r <= count)).
 Proof. exact chunked_read_within_count_proof. Qed.
 Print Assumptions chunked_read_within_count.
+
+Theorem chunked_decode_spec :
+  forall (wire payload partial : bytes) (ps : pieces) (counts : list Z),
+    valid_chunked wire payload -> partial ++ concat ps = wire -> zlen partial <= LINE_BUFFER_SIZE ->
+    Forall (fun c => 0 <= c) counts ->
+    exists l s', crs_run (crs_init LINE_BUFFER_SIZE partial ps false) counts = Some (l, s')
+      /\ outs l = ztake (zsum counts) payload
+      /\ Forall2 (fun r o => r = zlen o) (rets l) (map snd l)
+      /\ (zlen payload < zsum counts ->
+          c_finish s' = true /\ forall c, crs_read s' c = Some (0, [], s')).
+Proof. exact chunked_decode_spec_proof. Qed.
+Print Assumptions chunked_decode_spec.
+
+Theorem chunked_roundtrip :
+  forall (ws : list bytes) (s0 : cws) (partial : bytes) (ps : pieces) (counts : list Z),
+    Forall (fun w => w <> [] /\ zlen w < W64) ws ->
+    cw_finish s0 = false -> w_out (cw_sock s0) = [] ->
+    zlen (chunks_wire ws) + 5 <= w_budget (cw_sock s0) ->
+    let '(_, s1) := cws_run s0 ws in
+    let '(_, s2) := cws_close s1 in
+    partial ++ concat ps = w_out (cw_sock s2) -> zlen partial <= LINE_BUFFER_SIZE ->
+    Forall (fun c => 0 <= c) counts ->
+    exists l s', crs_run (crs_init LINE_BUFFER_SIZE partial ps false) counts = Some (l, s')
+      /\ outs l = ztake (zsum counts) (concat ws)
+      /\ Forall2 (fun r o => r = zlen o) (rets l) (map snd l)
+      /\ (zlen (concat ws) < zsum counts ->
+          c_finish s' = true /\ forall c, crs_read s' c = Some (0, [], s')).
+Proof. exact chunked_roundtrip_proof. Qed.
+Print Assumptions chunked_roundtrip.
